@@ -6,10 +6,13 @@ package app
 // the vrt runtime, so that a panic in the channel goroutine is caught as well.
 
 import (
+	"bytes"
 	"context"
 	"encoding/binary"
 	"fmt"
+	"net/http/httptest"
 	"os"
+	"runtime"
 	"strings"
 	"testing"
 
@@ -79,6 +82,9 @@ func TestVerifC08R(t *testing.T) {
 		{"audio-nor-128Kbps", "/upload/ch1/audio-nor-128Kbps/1.cmfa"},
 		{"text-nor-0", "/upload/ch1/text-nor-0/1.cmft"},
 		{"video-500Kbps", "/upload/ch1/Streams(video-500Kbps.cmfv)"},
+	}
+	if sh == 0 {
+		c08rDeclaredLength(rep, root, tracks["video-500Kbps"])
 	}
 	caseNr := 0
 	for _, pt := range paths {
@@ -382,4 +388,91 @@ func c08rNaiveMax(data []byte) uint32 {
 		pos += uint64(size)
 	}
 	return max
+}
+
+// c08rDeclaredLength: uploads whose Content-Length header field does not say how long the body is -- absent, zero,
+// too small, too large, negative, not a number, and beyond what can be allocated -- in parsing mode and in raw mode
+// (receiveNrRawSegments > 0), for an init and a media upload. The handler must answer every one of them deliberately.
+// Values between 2^31 and 2^47 are left out on purpose: where the handler allocates what the field says, they would
+// not fail but take the machine's memory (a sandbox hazard, not a verdict).
+func c08rDeclaredLength(rep *vh.Report, root string, tr *rTrack) {
+	type up struct {
+		name, path string
+		body       []byte
+	}
+	ups := []up{{"init", "/upload/ch1/video-500Kbps/init.cmfv", tr.init}, {"media", "/upload/ch1/video-500Kbps/1.cmfv", tr.segs[0]}}
+	caseNr := 0
+	for _, raws := range []uint64{0, 2} {
+		for _, u := range ups {
+			n := len(u.body)
+			for _, cl := range []string{"", "0", "1", "7", "8", "4095", "4096", fmt.Sprint(n - 1), fmt.Sprint(n), fmt.Sprint(n + 1), fmt.Sprint(2 * n), "-1", "-4096", "-9223372036854775808",
+				"abc", " 12", "12 ", "1e3", "0x10", "+5", "9223372036854775807", "4611686018427387904", "1152921504606846976", "9223372036854775808", "18446744073709551616", "99999999999999999999999"} {
+				caseNr++
+				storage := fmt.Sprintf("%s/declen%d", root, caseNr)
+				_ = os.MkdirAll(storage, 0o755)
+				label := fmt.Sprintf("%s upload, Content-Length %q, %d body bytes, receiveNrRawSegments=%d", u.name, cl, n, raws)
+				var codes []int
+				x := vrt.Run(nil, vrt.RunOpts{LoopHorizon: 2_000_000, WatchdogS: 60, AllowBlockedDaemons: true, StartNS: 1_700_000_000_000_000_000}, func(s *vrt.Sched) {
+					ctx, cancel := context.WithCancel(context.Background())
+					defer cancel()
+					opts := Options{prefix: "/upload", timeShiftBufferDepthS: 30, storage: storage, receiveNrRawSegments: raws}
+					rc, err := NewReceiver(ctx, &opts, GetEmptyConfig())
+					if err != nil {
+						s.Fail("setup", err.Error())
+						return
+					}
+					put := func(path string, body []byte, cl string) (code int) {
+						defer func() {
+							if p := recover(); p != nil {
+								if vrt.IsAbort(p) {
+									panic(p)
+								}
+								buf := make([]byte, 16384)
+								buf = buf[:runtime.Stack(buf, false)]
+								s.Fail("panic:"+rStackSite(string(buf))+":"+c08rClass(fmt.Sprint(p)), fmt.Sprintf("handler crashed: %v", p))
+								code = -1
+							}
+						}()
+						req := httptest.NewRequest("PUT", path, bytes.NewReader(body))
+						req.Header.Del("Content-Length")
+						if cl != "" {
+							req.Header.Set("Content-Length", cl)
+						}
+						w := httptest.NewRecorder()
+						rc.SegmentHandlerFunc(w, req)
+						return w.Code
+					}
+					if u.name == "media" && raws == 0 {
+						codes = append(codes, put(ups[0].path, ups[0].body, fmt.Sprint(len(ups[0].body))))
+					}
+					codes = append(codes, put(u.path, u.body, cl))
+					// a following well-formed upload must still be answered
+					codes = append(codes, put("/upload/ch1/video-500Kbps/2.cmfv", tr.segs[1], fmt.Sprint(len(tr.segs[1]))))
+					s.Quiesce()
+				})
+				_ = os.RemoveAll(storage)
+				rep.AddStates(1)
+				rep.AddTrans(int64(len(codes)))
+				rep.AddExecs(1)
+				rep.Hit("C08.a")
+				rep.Hit("C08.b")
+				rep.Outcome("declared-length:" + fmt.Sprint(codes))
+				in := map[string]any{"case": label}
+				for _, f := range x.Fails {
+					switch {
+					case f.Sig == "livelock" || f.Sig == "hang":
+						rep.Violate("C08.b", "receiver-hang:declared-length", label+": "+f.Msg, in)
+					case f.Sig == "deadlock":
+						rep.Violate("C08.b", "receiver-blocked:declared-length", label+": "+f.Msg, in)
+					case strings.HasPrefix(f.Sig, "panic"):
+						rep.Violate("C08.a", "receiver-"+f.Sig, label+": "+f.Msg, in)
+					}
+				}
+				if x.Hung {
+					rep.Cap("hang-outside-rewritten-code")
+					return
+				}
+			}
+		}
+	}
 }
